@@ -1,22 +1,25 @@
 import Driver.Util
 import Driver.BitSet
+import Driver.Set
 /-! Line-protocol driver: one request per line on stdin, one answer per line on stdout.
 Core-only so that it links as a native executable. -/
 open Drv
 
 structure DState where
-  dummy : Nat := 0
+  set : Drv.Set.St := none
 
 def step (st : DState) (line : String) : DState × String :=
   match words line with
   | "bs" :: rest => (st, BitSet.handle rest)
+  | "set" :: rest => let r := Drv.Set.handle st.set rest; ({ st with set := r.1 }, r.2)
+  | "case" :: rest => ({}, joinSp ("case" :: rest))
   | "echo" :: rest => (st, joinSp rest)
   | _ => (st, "bad-op")
 
 partial def loop (hin hout : IO.FS.Stream) (st : DState) : IO Unit := do
   let line ← hin.getLine
   if line.isEmpty then return ()
-  let (st', out) := step st (line.dropRightWhile (fun c => c == '\n' || c == '\r'))
+  let (st', out) := step st ((line.dropEndWhile (fun c => c == '\n' || c == '\r')).toString)
   hout.putStrLn out
   loop hin hout st'
 
